@@ -172,7 +172,7 @@ func (fr *frame) applyAssigns(items []*assignItem) {
 				old := mkSelect(arr, it.ref)
 				j := ft.c.BoundVar("j")
 				jt := Term{SIdx, j}
-				ft.c.Assume(nv, ft.c.Quant(false, j, SIdx, mkImp(mkOr(app(SBool, "bvult", jt, *it.lo), app(SBool, "bvuge", jt, *it.hi)),
+				ft.c.Assume(nv, ft.c.Quant(false, j, SIdx, mkImp(mkOr(app(SBool, "bvslt", jt, *it.lo), app(SBool, "bvsge", jt, *it.hi)),
 					mkEq(mkSelect(nv, jt), mkSelect(old, jt)))))
 			}
 			fr.cur.mem.m[c] = ft.c.Define("m$"+c, mkStore(arr, it.ref, nv))
